@@ -779,18 +779,287 @@ impl<const N: usize> BUint<N> {
     { unimplemented!() }
 }
 
-impl<const M: usize> Remainder<M> {
+impl<const M: usize> BUint<M> {
+    // proved in the shift unit (probes/verus_unchecked_shr_valuelevel.rs + overflowing_shr wrapper)
     #[verifier::external_body]
-    pub const fn new(uint: BUint<M>, shift: ExpType) -> (r: Self)
-        requires shift < 64, M >= 2
-        ensures val_upto(rseq(r), (M + 1) as nat) == uint@ * pow2(shift as nat)
+    pub const fn wrapping_shr(self, rhs: ExpType) -> (r: Self)
+        requires rhs < 64 * M
+        ensures r@ == self@ / (pow2(rhs as nat) as int)
     { unimplemented!() }
+}
 
-    #[verifier::external_body]
+pub proof fn lemma_shl_split(x: u64, bs: u64)
+    requires 0 < bs < 64
+    ensures
+        x as int * pow2(bs as nat) == (x >> ((64 - bs) as u64)) as int * base() + (x << bs) as int,
+        ((x >> ((64 - bs) as u64)) as int) < pow2(bs as nat),
+{
+    let cs: u64 = (64 - bs) as u64;
+    let pc = pow2(cs as nat) as int;
+    let pb = pow2(bs as nat) as int;
+    lemma_pow2_pos(cs as nat);
+    lemma_pow2_pos(bs as nat);
+    lemma_pow2_adds(cs as nat, bs as nat);
+    lemma2_to64();
+    assert(pc * pb == base());
+    lemma_pow2_strictly_increases(cs as nat, 64);
+    vstd::bits::lemma_u64_shl_is_mul(1, cs);
+    let one_cs: u64 = 1u64 << cs;
+    assert(one_cs as int == pc);
+    vstd::bits::lemma_u64_shr_is_div(x, cs);
+    let hi = x >> cs;
+    assert(hi as int == x as int / pc);
+    let y: u64 = x % one_cs;
+    assert(y as int == x as int % pc);
+    lemma_fundamental_div_mod(x as int, pc);
+    lemma_mod_bound(x as int, pc);
+    assert((x << bs) == ((x % (1u64 << ((64 - bs) as u64))) << bs)) by (bit_vector) requires 0 < bs < 64;
+    assert(y as int * pb <= (pc - 1) * pb) by (nonlinear_arith) requires y as int <= pc - 1, pb > 0;
+    assert((pc - 1) * pb == pc * pb - pb) by (nonlinear_arith);
+    vstd::bits::lemma_u64_shl_is_mul(y, bs);
+    assert((x << bs) as int == y as int * pb);
+    assert(x as int * pb == (hi as int * pc + y as int) * pb);
+    assert((hi as int * pc + y as int) * pb == hi as int * (pc * pb) + y as int * pb) by (nonlinear_arith);
+    assert((hi as int) < pb) by (nonlinear_arith) requires x as int == pc * hi as int + y as int, y as int >= 0, (x as int) < pc * pb, pc > 0;
+}
+
+pub proof fn lemma_shift0(x: u64)
+    ensures x << 0u32 == x, x >> 0u32 == x
+{
+    assert(x << 0u32 == x) by (bit_vector);
+    assert(x >> 0u32 == x) by (bit_vector);
+}
+
+pub proof fn lemma_shr_split(x: u64, bs: u64)
+    requires 0 < bs < 64
+    ensures
+        x as int == (x >> bs) as int * pow2(bs as nat) + x as int % (pow2(bs as nat) as int),
+        (x << ((64 - bs) as u64)) as int == (x as int % (pow2(bs as nat) as int)) * pow2((64 - bs) as nat),
+{
+    let cs: u64 = (64 - bs) as u64;
+    let pb = pow2(bs as nat) as int;
+    let pc = pow2(cs as nat) as int;
+    lemma_pow2_pos(bs as nat);
+    lemma_pow2_pos(cs as nat);
+    lemma_pow2_adds(bs as nat, cs as nat);
+    lemma2_to64();
+    assert(pb * pc == base());
+    vstd::bits::lemma_u64_shr_is_div(x, bs);
+    lemma_fundamental_div_mod(x as int, pb);
+    lemma_mod_bound(x as int, pb);
+    assert(x as int == (x >> bs) as int * pb + x as int % pb) by (nonlinear_arith)
+        requires x as int == pb * (x as int / pb) + x as int % pb, (x >> bs) as int == x as int / pb;
+    lemma_pow2_strictly_increases(bs as nat, 64);
+    vstd::bits::lemma_u64_shl_is_mul(1, bs);
+    let one_bs: u64 = 1u64 << bs;
+    assert(one_bs as int == pb);
+    let y: u64 = x % one_bs;
+    assert(y as int == x as int % pb);
+    assert((x << ((64 - bs) as u64)) == ((x % (1u64 << bs)) << ((64 - bs) as u64))) by (bit_vector) requires 0 < bs < 64;
+    assert(y as int * pc <= (pb - 1) * pc) by (nonlinear_arith) requires y as int <= pb - 1, pc > 0;
+    assert((pb - 1) * pc == pb * pc - pc) by (nonlinear_arith);
+    vstd::bits::lemma_u64_shl_is_mul(y, cs);
+}
+
+pub proof fn lemma_or_disjoint_hi(a: u64, b: u64, bs: u64)
+    requires 0 < bs < 64
+    ensures ((a >> bs) | (b << ((64 - bs) as u64))) as int == (a >> bs) as int + (b << ((64 - bs) as u64)) as int
+{
+    assert(((a >> bs) | (b << ((64 - bs) as u64))) == (a >> bs) + (b << ((64 - bs) as u64))) by (bit_vector) requires 0 < bs < 64;
+    assert((a >> bs) <= 0xFFFF_FFFF_FFFF_FFFFu64 - (b << ((64 - bs) as u64))) by (bit_vector) requires 0 < bs < 64;
+}
+
+// value of rseq in terms of first and rest
+pub proof fn lemma_rseq_val<const M: usize>(u: Remainder<M>)
+    ensures val_upto(rseq(u), (M + 1) as nat) == u.first as int + base() * val_upto(u.rest@, M as nat)
+{
+    let s = rseq(u);
+    lemma_wval_is_val(s, (M + 1) as nat);
+    lemma_wval_split(s, 0, 1, M as nat);
+    reveal_with_fuel(wval, 2);
+    lemma_pow0(base());
+    lemma_pow1(base());
+    assert(bp(0) == 1);
+    assert(bp(1) == base());
+    assert(s[0] as int * 1 == s[0] as int);
+    lemma_wval_shift(s, u.rest@, M as nat);
+    lemma_wval_is_val(u.rest@, M as nat);
+}
+
+pub proof fn lemma_wval_shift(s: Seq<u64>, t: Seq<u64>, i: nat)
+    requires forall|k: int| 0 <= k < i ==> s[k + 1] == t[k]
+    ensures wval(s, 1, i) == wval(t, 0, i)
+    decreases i
+{
+    if i > 0 { lemma_wval_shift(s, t, (i - 1) as nat); }
+}
+
+// digit-level to value-level for Remainder::shr
+pub proof fn lemma_rshr_step(d: Seq<u64>, out: Seq<u64>, m: nat, k: nat, s: nat)
+    requires 0 < s < 64, k <= m, d.len() == m + 1,
+        forall|t: int| 0 <= t < m ==> out[t] as int == (d[t] >> (s as u64)) as int + (d[t + 1] << ((64 - s) as u64)) as int,
+    ensures val_upto(out, k) * (pow2(s) as int) + d[0] as int % (pow2(s) as int) == val_upto(d, k) + (d[k as int] as int % (pow2(s) as int)) * bp(k)
+    decreases k
+{
+    let ps = pow2(s) as int;
+    if k == 0 {
+        lemma_pow0(base());
+        assert(bp(0) == 1);
+        assert((d[0] as int % ps) * 1 == d[0] as int % ps);
+        assert(0 * ps == 0);
+    } else {
+        let k1 = (k - 1) as nat;
+        lemma_rshr_step(d, out, m, k1, s);
+        lemma_shr_split(d[k1 as int], s as u64);
+        lemma_shr_split(d[k as int], s as u64);
+        lemma_pow2_adds(s, (64 - s) as nat);
+        lemma2_to64();
+        lemma_bp_succ(k1);
+        let pc = pow2((64 - s) as nat) as int;
+        assert(ps * pc == base());
+        let hi = (d[k1 as int] >> (s as u64)) as int;
+        let lk1 = d[k1 as int] as int % ps;
+        let lk = d[k as int] as int % ps;
+        let p = bp(k1);
+        let ok = out[k1 as int] as int;
+        assert(ok == hi + lk * pc);
+        // ok * ps = (d[k1] - lk1) + lk * B
+        assert((hi + lk * pc) * ps == hi * ps + lk * (ps * pc)) by (nonlinear_arith);
+        assert(val_upto(out, k) == val_upto(out, k1) + ok * p);
+        assert((val_upto(out, k1) + ok * p) * ps == val_upto(out, k1) * ps + (ok * ps) * p) by (nonlinear_arith);
+        assert((d[k1 as int] as int - lk1 + lk * base()) * p == d[k1 as int] as int * p - lk1 * p + lk * (p * base())) by (nonlinear_arith);
+    }
+}
+
+impl<const M: usize> Remainder<M> {
     pub const fn shr(self, shift: ExpType) -> (r: BUint<M>)
-        requires shift < 64, val_upto(rseq(self), (M + 1) as nat) < bp(M as nat) * pow2(shift as nat)
+        requires shift < 64, 1 <= M <= 1024, val_upto(rseq(self), (M + 1) as nat) < bp(M as nat) * pow2(shift as nat)
         ensures r@ == val_upto(rseq(self), (M + 1) as nat) / (pow2(shift as nat) as int)
-    { unimplemented!() }
+    {
+        let mut out = BUint::<M>::ZERO();
+        let mut i = 0;
+        let ghost d = rseq(self);
+        while i < M
+            invariant i <= M, shift < 64, d == rseq(self), M <= 1024,
+                forall|t: int| 0 <= t < i ==> out.digits[t] == d[t] >> shift,
+            decreases M - i
+        {
+            out.digits[i] = self.digit(i) >> shift;
+            i += 1;
+        }
+        if shift > 0 {
+            i = 0;
+            while i < M
+                invariant i <= M, 0 < shift < 64, d == rseq(self), M <= 1024,
+                    forall|t: int| i <= t < M ==> out.digits[t] == d[t] >> shift,
+                    forall|t: int| 0 <= t < i ==> out.digits[t] as int == (d[t] >> (shift as u64)) as int + (d[t + 1] << ((64 - shift) as u64)) as int,
+                decreases M - i
+            {
+                proof { lemma_or_disjoint_hi(d[i as int], d[i + 1], shift as u64); }
+                out.digits[i] |= self.rest[i] << (digit_u64::BITS as ExpType - shift);
+                i += 1;
+            }
+            proof {
+                let m = M as nat;
+                let ps = pow2(shift as nat) as int;
+                lemma_pow2_pos(shift as nat);
+                lemma_rshr_step(d, out.digits@, m, m, shift as nat);
+                // d[M] < 2^s from the bound
+                lemma_val_upto_bound(d, m);
+                lemma_bp_pos(m);
+                let top = d[m as int] as int;
+                assert(val_upto(d, (m + 1) as nat) == val_upto(d, m) + top * bp(m));
+                assert(top < ps) by (nonlinear_arith) requires val_upto(d, m) + top * bp(m) < bp(m) * ps, val_upto(d, m) >= 0, bp(m) > 0;
+                lemma_small_mod(top as nat, ps as nat);
+                lemma_mod_bound(d[0] as int, ps);
+                assert(val_upto(d, (m + 1) as nat) == val_upto(out.digits@, m) * ps + d[0] as int % ps);
+                lemma_fundamental_div_mod_converse(val_upto(d, (m + 1) as nat), ps, val_upto(out.digits@, m), d[0] as int % ps);
+                assert(out@ == val_upto(d, (m + 1) as nat) / ps);
+            }
+        } else {
+            proof {
+                let m = M as nat;
+                lemma_pow2(0); lemma_pow0(2);
+                assert(pow2(0) == 1);
+                assert forall|t: int| 0 <= t < M implies out.digits[t] == d[t] by {
+                    lemma_shift0(d[t]);
+                }
+                lemma_val_upto_ext(out.digits@, d, m);
+                lemma_val_upto_bound(d, m);
+                lemma_bp_pos(m);
+                let top = d[m as int] as int;
+                assert(val_upto(d, (m + 1) as nat) == val_upto(d, m) + top * bp(m));
+                assert(top == 0) by (nonlinear_arith) requires val_upto(d, m) + top * bp(m) < bp(m) * 1, val_upto(d, m) >= 0, bp(m) > 0, top >= 0;
+                assert(0 * bp(m) == 0);
+                assert(val_upto(d, (m + 1) as nat) == out@);
+                assert(out@ / 1 == out@);
+                assert(pow2(shift as nat) as int == 1);
+            }
+        }
+        out
+    }
+
+    pub const fn new(uint: BUint<M>, shift: ExpType) -> (r: Self)
+        requires shift < 64, 2 <= M <= 1024
+        ensures val_upto(rseq(r), (M + 1) as nat) == uint@ * pow2(shift as nat)
+    {
+        let first = uint.digits[0] << shift;
+        let rest = uint.wrapping_shr(digit_u64::BITS - shift);
+        let r = Self {
+            first,
+            rest: rest.digits,
+        };
+        proof {
+            let m = M as nat;
+            let ps = pow2(shift as nat) as int;
+            let pc = pow2((64 - shift) as nat) as int;
+            lemma_pow2_pos(shift as nat);
+            lemma_pow2_pos((64 - shift) as nat);
+            lemma_pow2_adds(shift as nat, (64 - shift) as nat);
+            lemma2_to64();
+            assert(ps * pc == base());
+            lemma_rseq_val(r);
+            let x = uint@;
+            let u0 = uint.digits[0] as int;
+            // x = u0 + B * xh
+            lemma_val_split(uint.digits@, 1, m);
+            reveal_with_fuel(val_upto, 2);
+            lemma_pow0(base()); lemma_pow1(base());
+            assert(bp(0) == 1); assert(bp(1) == base());
+            assert(u0 * 1 == u0);
+            let xh = val_from(uint.digits@, 1, m);
+            lemma_val_from_nonneg(uint.digits@, 1, m);
+            assert(x == u0 + base() * xh);
+            // rest@ = x / pc
+            assert(rest@ == x / pc);
+            lemma_val_upto_bound(uint.digits@, m);
+            if shift == 0 {
+                lemma_pow2(0); lemma_pow0(2);
+                assert(ps == 1);
+                assert(pc == base());
+                lemma_shift0(uint.digits[0]);
+                assert(base() * xh == xh * base()) by (nonlinear_arith);
+                lemma_fundamental_div_mod_converse(x, base(), xh, u0);
+                assert(x * 1 == x);
+            } else {
+                lemma_shl_split(uint.digits[0], shift as u64);
+                let c = (uint.digits[0] >> ((64 - shift) as u64)) as int;
+                // u0 * ps == c * B + first ; x / pc = xh * ps + c
+                // x = (xh*ps + c) * pc + (u0 - c*pc) with 0 <= u0 - c*pc < pc
+                vstd::bits::lemma_u64_shr_is_div(uint.digits[0], (64 - shift) as u64);
+                lemma_fundamental_div_mod(u0, pc);
+                lemma_mod_bound(u0, pc);
+                let low = u0 % pc;
+                assert(c == u0 / pc);
+                assert(x == (xh * ps + c) * pc + low) by (nonlinear_arith)
+                    requires x == u0 + base() * xh, u0 == pc * c + low, ps * pc == base();
+                lemma_fundamental_div_mod_converse(x, pc, xh * ps + c, low);
+                assert(first as int + base() * (xh * ps + c) == (u0 + base() * xh) * ps) by (nonlinear_arith)
+                    requires u0 * ps == c * base() + first as int;
+            }
+        }
+        r
+    }
 }
 
 #[inline]
